@@ -68,14 +68,14 @@ theorem emptyLeaf_of (s : RS) (h : isEmptyLeaf s = true) : EmptyLeaf s := by
 /-! ### induction over a schema and its composition members -/
 
 theorem rs_induct (P : RS → Prop)
-    (h : ∀ t n r w ml mx props req a items nt oneOf anyOf allOf,
+    (h : ∀ t n r w ml mx props req a items nt oneOf anyOf allOf dflt,
       (∀ x, nt = some x → P x) → (∀ x ∈ oneOf, P x) → (∀ x ∈ anyOf, P x) → (∀ x ∈ allOf, P x) →
-      P (RS.mk t n r w ml mx props req a items nt oneOf anyOf allOf)) : ∀ s, P s := by
+      P (RS.mk t n r w ml mx props req a items nt oneOf anyOf allOf dflt)) : ∀ s, P s := by
   have key := cdepth.mutual_induct (motive_1 := P) (motive_2 := fun l => ∀ x ∈ l, P x)
     (motive_3 := fun o => ∀ x, o = some x → P x)
   refine (key ?_ ?_ ?_ ?_ ?_).1
-  · intro t n r w ml mx props req a items nt oneOf anyOf allOf h1 h2 h3 h4
-    exact h t n r w ml mx props req a items nt oneOf anyOf allOf h1 h2 h3 h4
+  · intro t n r w ml mx props req a items nt oneOf anyOf allOf dflt h1 h2 h3 h4
+    exact h t n r w ml mx props req a items nt oneOf anyOf allOf dflt h1 h2 h3 h4
   · intro x hx; cases hx
   · intro n hn x hx; cases hx; exact hn
   · intro x hx; cases hx
@@ -141,7 +141,7 @@ theorem satAllB_spec (l : List RS) (h : ∀ x ∈ l, (satCB isNull own x = true 
 
 theorem satCB_iff (h : ∀ s, own s = true ↔ Own s) : ∀ s, satCB isNull own s = true ↔ SatC isNull Own s := by
   apply rs_induct
-  intro t n r w ml mx props req a items nt oneOf anyOf allOf hnt h1 h2 h3
+  intro t n r w ml mx props req a items nt oneOf anyOf allOf dflt hnt h1 h2 h3
   have hnot : satNotB isNull own nt = true ↔ SatNot isNull Own nt := by
     cases nt with
     | none => simp [satNotB, SatNot]
@@ -191,7 +191,7 @@ theorem comp_eq_satCB (isNull : Bool) (own own' : RS → Bool)
     (hN : isNull = true → ∀ s, own s = s.nullable) :
     ∀ s, comp isNull own s = satCB isNull own' s := by
   apply rs_induct
-  intro t n r w ml mx props req a items nt oneOf anyOf allOf hnt h1 h2 h3
+  intro t n r w ml mx props req a items nt oneOf anyOf allOf dflt hnt h1 h2 h3
   have hnot : compNot isNull own nt = satNotB isNull own' nt := by
     cases nt with
     | none => rfl
@@ -214,13 +214,13 @@ theorem comp_eq_satCB (isNull : Bool) (own own' : RS → Bool)
   rw [hnot, c1.1, c2.2.1, c3.2.2]
   cases hnull : isNull with
   | true =>
-    have hNs := hN hnull (RS.mk t n r w ml mx props req a items nt oneOf anyOf allOf)
+    have hNs := hN hnull (RS.mk t n r w ml mx props req a items nt oneOf anyOf allOf dflt)
     simp only [RS.nullable] at hNs
     cases hn : n with
     | true => simp
     | false =>
       simp only [Bool.true_and, Bool.false_eq_true, if_false, if_true, Bool.false_or]
-      cases he : isEmptyLeaf (RS.mk t false r w ml mx props req a items nt oneOf anyOf allOf) with
+      cases he : isEmptyLeaf (RS.mk t false r w ml mx props req a items nt oneOf anyOf allOf dflt) with
       | true =>
         have e := emptyLeaf_of _ he
         have e1 := e.oneOf; have e2 := e.anyOf; have e3 := e.allOf
@@ -237,7 +237,7 @@ theorem comp_eq_satCB (isNull : Bool) (own own' : RS → Bool)
   | false =>
     simp only [Bool.false_and, Bool.false_eq_true, if_false, Bool.not_false]
     rw [← hown hnull]
-    cases he : isEmptyLeaf (RS.mk t n r w ml mx props req a items nt oneOf anyOf allOf) with
+    cases he : isEmptyLeaf (RS.mk t n r w ml mx props req a items nt oneOf anyOf allOf dflt) with
     | true =>
       have e := emptyLeaf_of _ he
       have e0 := e.nt; have e1 := e.oneOf; have e2 := e.anyOf; have e3 := e.allOf
@@ -407,7 +407,7 @@ as long as the own-keyword verdict does not -/
 theorem satCB_clearWO (isNull : Bool) (own : RS → Bool) (h : ∀ s, own s.clearWO = own s) :
     ∀ s, satCB isNull own s.clearWO = satCB isNull own s := by
   apply rs_induct
-  intro t n r w ml mx props req a items nt oneOf anyOf allOf hnt h1 h2 h3
+  intro t n r w ml mx props req a items nt oneOf anyOf allOf dflt hnt h1 h2 h3
   have hl : ∀ l : List RS, (∀ x ∈ l, satCB isNull own x.clearWO = satCB isNull own x) →
       satCountB isNull own (clearWOList l) = satCountB isNull own l ∧
       satAnyB isNull own (clearWOList l) = satAnyB isNull own l ∧
@@ -427,7 +427,7 @@ theorem satCB_clearWO (isNull : Bool) (own : RS → Bool) (h : ∀ s, own s.clea
   have c1 := hl oneOf h1
   have c2 := hl anyOf h2
   have c3 := hl allOf h3
-  have hown := h (RS.mk t n r w ml mx props req a items nt oneOf anyOf allOf)
+  have hown := h (RS.mk t n r w ml mx props req a items nt oneOf anyOf allOf dflt)
   unfold RS.clearWO at hown ⊢
   unfold satCB
   rw [hnot, c1.1, c2.2.1, c3.2.2.1, c1.2.2.2, c2.2.2.2, c3.2.2.2, hown]
@@ -704,7 +704,7 @@ theorem noComp_of_declOK (p : RS) (h : declOK p = true) : hasCompP p = false := 
 theorem decodePropC_of_noComp (fields : List (Str × List Str)) (k : Str) (e : Option Enc) (p : RS)
     (h : hasCompP p = false) : decodePropC fields k e p = decodeFormProp fields k p e := by
   cases p with
-  | mk ty n r w ml mx props req a items nt oneOf anyOf allOf =>
+  | mk ty n r w ml mx props req a items nt oneOf anyOf allOf dflt =>
     unfold hasCompP at h
     simp only [RS.allOf, RS.anyOf, RS.oneOf, RS.nt, Bool.not_eq_false', Bool.and_eq_true, List.isEmpty_iff,
       Option.isNone_iff_eq_none] at h
@@ -719,7 +719,7 @@ theorem declOKC_cases (p : RS) (h : declOKC p = true) : hasCompP p = true ∨ pr
   | false =>
     right
     cases p with
-    | mk ty n r w ml mx props req a items nt oneOf anyOf allOf =>
+    | mk ty n r w ml mx props req a items nt oneOf anyOf allOf dflt =>
       unfold declOKC at h
       unfold hasCompP at hc
       simp only [RS.allOf, RS.anyOf, RS.oneOf, RS.nt, Bool.not_eq_false'] at hc
